@@ -21,7 +21,9 @@ if ! cmp -s /tmp/confirm-$$.diff seed/patch.diff; then
     git checkout -- src && git apply seed/patch.diff || { echo '{"error":"patch does not apply"}' > $out; rm -f /tmp/confirm-$$.diff; exit 2; }
 fi
 rm -f /tmp/confirm-$$.diff
-# 2. builds and passes the suite
+# 2. builds and passes the suite (the Makefile does not track header dependencies: rebuild from scratch for header patches)
+hdr=0; grep -q "^+++ b/src/.*\.h" seed/patch.diff && hdr=1
+[ $hdr -eq 1 ] && make clean > /dev/null 2>&1
 make -j4 > seed/confirm_build.log 2>&1; build_rc=$?
 make -k check > seed/confirm_check.log 2>&1
 total=$(grep -E "^# TOTAL:" seed/confirm_check.log | awk '{s+=$3} END{print s+0}')
@@ -31,6 +33,7 @@ fail=$(grep -E "^# (FAIL|ERROR):" seed/confirm_check.log | awk '{s+=$3} END{prin
 run_demo confirm_demo_with.out; with_rc=$?
 # 4. demo without
 git apply -R seed/patch.diff
+[ $hdr -eq 1 ] && make clean > /dev/null 2>&1
 make -j4 > seed/confirm_build0.log 2>&1; build0_rc=$?
 run_demo confirm_demo_without.out; without_rc=$?
 git apply seed/patch.diff
